@@ -646,6 +646,7 @@ def fixed_cases():
         {"fe": "docutils", "text": ":{{a}}: x\n", "settings": {"myst_enable_extensions": ["fieldlist", "substitution"], "myst_substitutions": {"a": ""}}},
         {"fe": "docutils", "text": "---\nmyst:\n  substitutions: {a: ''}\n---\n:{{a}}: x\n", "settings": {"myst_enable_extensions": ["fieldlist", "substitution"]}},
         {"fe": "sphinx", "text": ":::{productionlist}\n:\n:::\n", "settings": {"myst_enable_extensions": ["colon_fence"]}},
+        {"fe": "docutils", "text": "```{target-notes}\n:name: a\n```\n", "settings": {}},
         {"fe": "docutils", "text": "[a](inv://[#x)\n", "settings": {}},
         {"fe": "docutils", "text": "[a](http://[::1)\n", "settings": {"myst_url_schemes": {"http": {"url": "x{{path}}"}}}},
         {"fe": "docutils", "text": "---\nmyst:\n  url_schemes: {http: {url: 'x{{path}}'}}\n---\n<http://[::1>\n", "settings": {}},
@@ -707,8 +708,8 @@ def _search(ctx):
                           "files": dict(extra.get("files", {})), "name": "index.md"})
     n_fixed = len(cases)
     rng = ctx.rng
-    n_doc = ctx.budget(3000, 120000, 60000)
-    n_sph = ctx.budget(150, 12000, 4000)
+    n_doc = ctx.budget(8000, 150000, 60000)
+    n_sph = ctx.budget(600, 15000, 4000)
     for _ in range(n_doc):
         cases.append(G.gen_case(rng, "docutils", HAVE_LINKIFY))
     for _ in range(n_sph):
